@@ -929,7 +929,7 @@ func main() {
 			return snapGuards(repo) + effectOrder(repo, "stores/basestore/utils.go", "SaveSnapshot", "saveSnapshotOrder", [][2]string{
 				{"heads", "oplog.Heads()"}, {"len", "oplog.Len()"}, {"entries", "oplog.GetEntries()"}}) +
 				effectOrder(repo, bs, "LoadFromSnapshot", "loadSnapshotOrder", [][2]string{
-					{"rebuild", "ipfslog.NewFromJSON("}, {"ownlog", "e.GetLogID() != oplog.GetID()"}, {"canappend", "CanAppend(e, provider"},
+					{"rebuild", "ipfslog.NewFromJSON("}, {"ownlog", "e.GetLogID() != oplog.GetID()"}, {"held", "oplog.Get(e.GetHash())"}, {"canappend", "CanAppend(e, provider"},
 					{"verify", "e.Verify(provider"}, {"count", "maxClock < t"}, {"max", "b.recalculateReplicationMax("},
 					{"join", "oplog.Join(log, -1)"}, {"index", "b.updateIndex("}, {"status", "b.recalculateReplicationStatus("}})
 		}},
